@@ -56,9 +56,11 @@ impl Engine for LiveEngine {
         let burst = !steady && c.chance(1, 5);
         // one client overwrites the same key back to back for more than the bound
         let hot = !steady && !burst && c.chance(1, 4);
-        let (shards, workers) = if hot { (1, 1) } else { (shards, workers) };
+        // hot runs: one worker; in half of them it owns several shards, so that the other
+        // clients' keys sit in sibling shards of the busy one and must not starve behind it
+        let (shards, workers) = if hot { (if c.chance(1, 2) { 1 } else { 2 + c.below(3) as usize }, 1) } else { (shards, workers) };
         let sim = SimConfig {
-            strategy: if hot && shards == 1 {
+            strategy: if hot {
                 // the flusher (thread 1) is held back after every drain, see hold_sites below
                 Strategy::Starve(1)
             } else {
@@ -123,6 +125,10 @@ impl Engine for LiveEngine {
                         bytes: w.chance(1, 2),
                     },
                 };
+                if hot && ci != 0 {
+                    // neighbours of the hot key write while it is busy, not only before
+                    ops.push(Op::Advance { ns: *w.pick(&[150_000_000u64, 400_000_000, 900_000_000]) });
+                }
                 ops.push(op);
                 if steady {
                     ops.push(Op::Advance { ns: *w.pick(&[20_000_000u64, 100_000_000, 310_000_000]) });
